@@ -98,12 +98,25 @@ func applyJSON(doc document.Document, entry interface{}) (document.Document, err
 		return nil, err
 	}
 
-	docBytes, err = jsonPatches.Apply(docBytes)
+	docBytes, err = applyJSONPatches(jsonPatches, docBytes)
 	if err != nil {
 		return nil, err
 	}
 
 	return document.FromBytes(docBytes)
+}
+
+// applyJSONPatches applies the decoded RFC 6902 patches to the document bytes. The json-patch library
+// panics on some decodable but malformed operations (for example a "test" operation with a negative array
+// index or without a value); such a panic is reported as an error so that the operation is rejected.
+func applyJSONPatches(jsonPatches jsonpatch.Patch, docBytes []byte) (result []byte, err error) {
+	defer func() {
+		if r := recover(); r != nil {
+			result, err = nil, fmt.Errorf("apply JSON patch: %v", r)
+		}
+	}()
+
+	return jsonPatches.Apply(docBytes)
 }
 
 func applyRecover(replaceDoc interface{}) (document.Document, error) {
